@@ -121,7 +121,7 @@ claim("C04",
       "Flattener::fold_expr is external (ghost log of (expression, frame in effect)); slices drop the rest of resolve_special_func / "
       "translate_windowed; unpack_as_int_literal and sqlparser value construction are trusted by contract.")
 
-prop("C18", ["dialect_select", "set_ops", "header_frame", "header_args", "token_filter", "resolve_guards"],
+prop("C18", ["dialect_select", "set_ops", "header_frame", "header_args", "token_filter", "resolve_guards", "stmt_newlines"],
      select={"set_ops": lambda n: n.split(".", 1)[1] in ("WR1", "WR2", "attach_ctes.safety", "attach_ctes.loop_exit"),
              # the header is a declaration (`prql`) of the root module: that a declaration does not change what OTHER names resolve to through the std redirect is Module::lookup's contract
              "resolve_guards": lambda n: n.split(".", 1)[1] in ("LK1", "LK2", "lookup.safety")},
@@ -132,7 +132,7 @@ claim("C18",
       "compile_query uses the explicit option whatever the header says, without even consulting it (DS1a); with no option and no header the "
       "generic dialect (DS1b); with no option the header decides through Target::from_str, and an error there is returned (DS1c, DS1d); "
       "Target::from_str maps 'sql.any' to 'no dialect', 'sql.<name>' to the dialect strum knows under <name>, and everything else to an error "
-      "(FS1-FS4); Target::default() is Sql(None) (TD1). the resolver side: the header is one more declaration (`prql`) of the root module, and Module::lookup returns the direct hits plus the hits through EVERY redirect whatever the module itself declares (resolve_guards LK1-2), so a header does not take std names away; the parser is handed every token but comments and line wraps (token_filter TF1). Equality of 'option x' and 'header x' follows: both routes yield the same Dialect value.",
+      "(FS1-FS4); Target::default() is Sql(None) (TD1). the resolver side: the header is one more declaration (`prql`) of the root module, and Module::lookup returns the direct hits plus the hits through EVERY redirect whatever the module itself declares (resolve_guards LK1-2), so a header does not take std names away; the parser is handed every token but comments and line wraps (token_filter TF1). no kind of declaration needs a line break of its own in front of it, so the first declaration may stand directly under the header line (stmt_newlines ST1: a table over the combinator chain of module_contents). Equality of 'option x' and 'header x' follows: both routes yield the same Dialect value.",
       "strum's Dialect::from_str is an uninterpreted partial function (the name table itself is derive output); HashMap lookup of the header "
       "and translate_query are external; the resolver-independence clause is argued, not checked.")
 
@@ -249,7 +249,7 @@ def _safety(name):
 
 
 _ALL_UNITS = ["take_range", "sort_take", "split_order", "window_frame", "dialect_select", "ident_quote", "ids_names", "toposort", "rq_tables",
-              "select_shape", "span_units", "sql_prec", "prql_prec", "literals", "set_ops", "desugar", "resolve_guards", "lex_strings", "limit_clause", "static_eval", "operator_tpl", "rel_names", "lower_cols", "vec_utils", "group_take", "flatten_sort", "star_exclude", "std_arity", "limit_select", "rq_shape", "star_cols", "func_env", "json_lits", "cte_define", "type_meet", "fmt_strings", "concat_ops", "sstring_query", "sstring_cols", "lineage_except", "sort_infer", "setop_pairs", "setops_reach", "tuple_unpack", "resolver_unwraps", "name_lookup", "frame_decls", "select_cols", "lower_transform", "sort_names", "positional_map", "fmt_interp", "datetime_lit", "lex_numbers", "rq_fold", "dialect_flags", "cid_inline", "module_names", "compose_errors", "lex_end_expr", "fmt_names", "header_args", "literal_rows", "tuple_helpers", "pipeline_types", "lower_ident", "sql_templates", "interp_ident", "table_instance", "fmt_width", "span_frame", "range_sugar", "pl_fold", "lower_expr", "sql_relations", "anchor_names", "ident_kinds", "sql_case", "literal_frame", "relation_literal", "fmt_entry", "parse_files", "array_item_type", "token_filter", "slice_frame", "lex_backtick"]
+              "select_shape", "span_units", "sql_prec", "prql_prec", "literals", "set_ops", "desugar", "resolve_guards", "lex_strings", "limit_clause", "static_eval", "operator_tpl", "rel_names", "lower_cols", "vec_utils", "group_take", "flatten_sort", "star_exclude", "std_arity", "limit_select", "rq_shape", "star_cols", "func_env", "json_lits", "cte_define", "type_meet", "fmt_strings", "concat_ops", "sstring_query", "sstring_cols", "lineage_except", "sort_infer", "setop_pairs", "setops_reach", "tuple_unpack", "resolver_unwraps", "name_lookup", "frame_decls", "select_cols", "lower_transform", "sort_names", "positional_map", "fmt_interp", "datetime_lit", "lex_numbers", "rq_fold", "dialect_flags", "cid_inline", "module_names", "compose_errors", "lex_end_expr", "fmt_names", "header_args", "literal_rows", "tuple_helpers", "pipeline_types", "lower_ident", "sql_templates", "interp_ident", "table_instance", "fmt_width", "span_frame", "range_sugar", "pl_fold", "lower_expr", "sql_relations", "anchor_names", "ident_kinds", "sql_case", "literal_frame", "relation_literal", "fmt_entry", "parse_files", "array_item_type", "token_filter", "slice_frame", "lex_backtick", "stmt_newlines"]
 
 
 def _c12_split_order(n):
